@@ -66,6 +66,10 @@ structure SizeOK (s : Stmt) : Prop where
   und : s.fixedSize = false → s.pkg.choices ≠ [] →
     s.pkg.maxSize = s.pkg.size + 2 ∧ s.pkg.size = s.row.indSz ∧ s.pkg.needsRes = true
   small : s.pkg.needsRes = true → s.fixedSize = true → s.pkg.size ≤ s.row.indSz + 2
+  /-- the op code of a PCR statement with post-byte choices is the indexed op code of its row -/
+  op : s.pkg.choices ≠ [] → opVal s.row.ind = .ok s.pkg.opCode
+  /-- a PCR statement settled on the 8-bit form is one byte longer than the indexed base size -/
+  small8 : s.pkg.choices ≠ [] → s.fixedSize = true → s.pcrHint = 2 → s.pkg.size = s.row.indSz + 1
 
 /-- `s'` is a later state of `s` -/
 def Narrow (s s' : Stmt) : Prop :=
@@ -128,11 +132,11 @@ structure WInv (ss : List Stmt) : Prop where
 theorem settle_eq {s s' : Stmt} {e h c : Nat} (hs : settle s e h c = some s') :
     s'.pkg.size = s.pkg.size + e ∧ s'.pkg.maxSize = s.pkg.size + e ∧ s'.pcrHint = h ∧ s'.fixedSize = true ∧
     s'.pkg.additional = s.pkg.additional ∧ s'.pkg.needsRes = s.pkg.needsRes ∧
-    s'.pkg.choices = s.pkg.choices ∧ s'.row = s.row := by
+    s'.pkg.choices = s.pkg.choices ∧ s'.row = s.row ∧ s'.pkg.opCode = s.pkg.opCode := by
   unfold settle at hs
   cases ho : orPost s c with
   | none => rw [ho] at hs; cases hs
-  | some pb => rw [ho] at hs; simp at hs; subst hs; exact ⟨rfl, rfl, rfl, rfl, rfl, rfl, rfl, rfl⟩
+  | some pb => rw [ho] at hs; simp at hs; subst hs; exact ⟨rfl, rfl, rfl, rfl, rfl, rfl, rfl, rfl, rfl⟩
 
 /-- the three ways a step of the size loop can treat an undecided statement -/
 def Step (ss : List Stmt) (i : Nat) (s s' : Stmt) : Prop :=
@@ -234,15 +238,22 @@ theorem forceFirst_step : ∀ {ss r : List Stmt}, forceFirst ss = some r →
 theorem step_narrow {ss : List Stmt} {i : Nat} {s s' : Stmt} (hok : SizeOK s) (hf : s.fixedSize = false)
     (hch : s.pkg.choices ≠ []) (hst : Step ss i s s') : Narrow s s' ∧ SizeOK s' := by
   obtain ⟨hmax, hind, hneeds⟩ := hok.und hf hch
+  have hop := hok.op hch
   rcases hst with rfl | ⟨c, hs⟩ | ⟨c, rel, hs, _⟩
   · exact ⟨.refl _, hok⟩
-  · obtain ⟨e1, e2, e3, e4, e5, e6, e7, e8⟩ := settle_eq hs
-    refine ⟨⟨by omega, by omega, fun h => by rw [hf] at h; cases h⟩, ⟨by omega, fun h => ?_, fun _ _ => ?_⟩⟩
+  · obtain ⟨e1, e2, e3, e4, e5, e6, e7, e8, e9⟩ := settle_eq hs
+    refine ⟨⟨by omega, by omega, fun h => by rw [hf] at h; cases h⟩,
+      ⟨by omega, fun h => ?_, fun _ _ => ?_, fun _ => ?_, fun _ _ h2 => ?_⟩⟩
     · rw [e4] at h; cases h
     · rw [e8]; omega
-  · obtain ⟨e1, e2, e3, e4, e5, e6, e7, e8⟩ := settle_eq hs
-    refine ⟨⟨by omega, by omega, fun h => by rw [hf] at h; cases h⟩, ⟨by omega, fun h => ?_, fun _ _ => ?_⟩⟩
+    · rw [e8, e9]; exact hop
+    · rw [e3] at h2; cases h2
+  · obtain ⟨e1, e2, e3, e4, e5, e6, e7, e8, e9⟩ := settle_eq hs
+    refine ⟨⟨by omega, by omega, fun h => by rw [hf] at h; cases h⟩,
+      ⟨by omega, fun h => ?_, fun _ _ => ?_, fun _ => ?_, fun _ _ _ => ?_⟩⟩
     · rw [e4] at h; cases h
+    · rw [e8]; omega
+    · rw [e8, e9]; exact hop
     · rw [e8]; omega
 
 theorem winv_step {ss : List Stmt} {i : Nat} {s s' : Stmt} (hI : WInv ss) (hs : ss[i]? = some s)
@@ -269,7 +280,7 @@ theorem winv_step {ss : List Stmt} {i : Nat} {s s' : Stmt} (hI : WInv ss) (hs : 
       rcases hst with rfl | ⟨c, hs2⟩ | ⟨c, rel, hs2, hfo, hrel, hlen, hback, hfwd⟩
       · rw [hf] at hft; cases hft
       · have := (settle_eq hs2).2.2.1; rw [this] at hht; cases hht
-      · obtain ⟨e1, e2, e3, e4, e5, e6, e7, e8⟩ := settle_eq hs2
+      · obtain ⟨e1, e2, e3, e4, e5, e6, e7, e8, _⟩ := settle_eq hs2
         refine ⟨rel, by rw [e5]; exact hrel, by simpa using hlen, by rw [e5]; exact hfo, by omega,
           fun hb => ?_, fun hb => ?_⟩
         · have := narrow_maxSum hpw rel i
@@ -354,10 +365,16 @@ theorem translateAll_winv : ∀ {a r : List Stmt}, translateAll a = some r →
         | zero =>
           simp at hs; subst hs
           obtain ⟨hw, hl⟩ := translateOperand_w hr
-          refine ⟨⟨hw.le, fun _ hc => hw.und hc, fun hn hf => ?_⟩, fun hf => ?_, hl⟩
+          refine ⟨⟨hw.le, fun _ hc => ⟨(hw.und hc).1, (hw.und hc).2.1, (hw.und hc).2.2.1⟩, fun hn hf => ?_,
+            fun hc => (hw.und hc).2.2.2, fun hc hf _ => ?_⟩, fun hf => ?_, hl⟩
           · have hf' : (!p.needsRes && p.choices.isEmpty) = true := hf
             have hn' : p.needsRes = true := hn
             rw [hn'] at hf'; simp at hf'
+          · have hf' : (!p.needsRes && p.choices.isEmpty) = true := hf
+            have hc' : p.choices ≠ [] := hc
+            cases hp : p.choices with
+            | nil => exact absurd hp hc'
+            | cons c cs => rw [hp] at hf'; simp at hf'
           · have hf' : (!p.needsRes && p.choices.isEmpty) = true := hf
             show p.needsRes = false
             cases hp : p.needsRes with
@@ -400,5 +417,17 @@ theorem pcrLoop_width {fuel : Nat} {ss2 fin : List Stmt} {a : List Stmt} (ht : t
     · have := sizeOK_sum_le hI.ok rel i; have := h4 hb; omega
     · have := sizeOK_sum_le hI.ok i rel; have := h5 hb; omega
   · exact (hI.ok i f hf).small hn (hfx i f hf)
+
+/-- what the loop delivers for the operand WIDTH of a PCR statement: op code of the row, and on the 8-bit form
+one byte more than the indexed base size -/
+theorem pcrLoop_width8 {fuel : Nat} {ss2 fin : List Stmt} {a : List Stmt} (ht : translateAll a = some ss2)
+    (h : pcrLoop fuel ss2 = .ok fin) (i : Nat) (f : Stmt) (hf : fin[i]? = some f) (hc : f.pkg.choices ≠ []) :
+    opVal f.row.ind = .ok f.pkg.opCode ∧ (f.pcrHint = 2 → f.pkg.size = f.row.indSz + 1) := by
+  obtain ⟨hI, _⟩ := pcrLoop_winv fuel ss2 h (translateAll_WInv ht)
+  have hall := pcrLoop_ok_allFixed fuel ss2 h
+  have hfx : f.fixedSize = true := by
+    simp only [allFixed, List.all_eq_true] at hall
+    exact hall f (List.mem_of_getElem? hf)
+  exact ⟨(hI.ok i f hf).op hc, (hI.ok i f hf).small8 hc hfx⟩
 
 end CoCo.Asm
